@@ -406,6 +406,11 @@ func (r *Report) Finish(verif string) int {
 		}
 	}
 
+	if os.Getenv("COG_DUMP") != "" {
+		for _, o := range r.Obls {
+			fmt.Printf("OBL %s | %s | %s | %s | %s\n", o.Verdict, o.Rule, o.Construct, o.Pos, o.Detail)
+		}
+	}
 	wall := time.Since(r.ctx.Start).Seconds()
 	// samples: every violated/known plus up to 12 discharged, spread over rules
 	var samples []Obligation
